@@ -1081,7 +1081,7 @@ class Emitter:
                 call = '__vf_%s_%d(%s)' % (name.replace('.', '_'), 0, ', '.join(A)); s.warn.append('intrinsic ' + name)
             else:
                 s.warn.append('unknown intrinsic ' + name); call = '__vf_%s(%s)' % (name.replace('.', '_'), ', '.join(A))
-        elif c.kind == 'global' and c.name == '@_Znwm' and ins.res in s.typed_new and args[0].kind == 'num':
+        elif c.kind == 'global' and c.name in ('@_Znwm', '@__cxa_allocate_exception') and ins.res in s.typed_new and args[0].kind == 'num':   # exception objects too: a typed object keeps the vptr load of e.what() constant
             ty = s.typed_new[ins.res]
             call = '(uint8_t*)__vf_typed_new(malloc(sizeof(%s)), %s, sizeof(%s))' % (s.ctype(ty), A[0], s.ctype(ty))
         elif c.kind == 'global':
